@@ -11,7 +11,7 @@ func init() {
 		},
 		Rule:      "a case = (generated design, method, request): a valid payload, a single-fault mutant of a valid payload (C04's mutator) or a wire-level edit (required member deleted, wrong JSON/parameter type), sent through the generated client; the exact tapped http.Request and the response are judged by kin-openapi's openapi3filter against openapi3.json and compared with the server's own accept/reject decision. Non-trivial = wire-level edit, or a mutant one step outside a bound or at depth >= 1. Distinct = SHA-256 of the case.",
 		LevelText: "Differential generated-input search: server verdict (stub invoked vs 4xx) against an independent OpenAPI 3 request validator on the very same request bytes, in both directions, plus response validation of every success response against the documented schema for its status. Exploration; disagreement classes that stem from the validator's own limits are counted as not-compared, never as violations.",
-		LevelNote: "Trusts kin-openapi v0.128 (openapi3filter, routers/legacy) as the reading of the OpenAPI 3 text; format and pattern faults, repeated header lines (arrays in headers) and unsupported content types are not compared. JSON bodies only. Designs avoid the classes of the open C07/C14 findings (counted) so that documents load. Fixed designs next to the generated ones: parameter, view (result types with pinned views, a required attribute outside two views) and MapParams matrices.",
+		LevelNote: "Trusts kin-openapi v0.128 (openapi3filter, routers/legacy) as the reading of the OpenAPI 3 text; format and pattern faults, repeated header lines (arrays in headers) and unsupported content types are not compared. JSON bodies only. Designs avoid the classes of the open C07/C14 findings (counted) so that documents load. Fixed designs next to the generated ones: parameter, view (result types with pinned views, a required attribute outside two views) and MapParams matrices. Requests without any body are compared as well (requestBody.required). Extend / Reference inheritance is exercised on a fixed design (InheritMatrix).",
 		Technique: "differential property-based testing (rapid): generated server vs independent OpenAPI 3 validator on identical generated requests and responses",
 		Assumptions: []string{
 			"only JSON request and response bodies are compared",
